@@ -47,7 +47,7 @@ FP = "PEPit.examples.fixed_point_problems"
 MI = "PEPit.examples.monotone_inclusions_variational_inequalities"
 TU = "PEPit.examples.tutorials"
 
-FAMILIES = ["gd", "gd_contraction", "heavy_ball", "agm", "subgradient", "prox_point", "prox_gradient", "frank_wolfe",
+FAMILIES = ["gd_nonconvex", "gd", "gd_contraction", "heavy_ball", "agm", "subgradient", "prox_point", "prox_gradient", "frank_wolfe",
             "halpern", "km", "mono_prox_point", "optimistic_gradient", "past_extragradient", "drs_operators"]
 
 
@@ -56,7 +56,9 @@ def _case(draw):
     fam = draw(st.sampled_from(FAMILIES))
     L = draw(Lg)
     p = {}
-    if fam == "gd":
+    if fam == "gd_nonconvex":
+        p = {"L": L, "gamma": draw(st.sampled_from([1.0, 0.5, 0.25])) / L, "n": draw(st.integers(1, 4))}
+    elif fam == "gd":
         p = {"L": L, "gamma": draw(st.sampled_from([1.0, 0.5, 0.25])) / L, "n": draw(st.integers(1, 4))}
     elif fam == "gd_contraction":
         p = {"L": L, "mu": round(L * draw(st.sampled_from([0.1, 0.5])), 6), "gamma": draw(st.sampled_from([1.0, 0.5, 1.5, 1.9])) / L, "n": draw(st.integers(1, 3))}
@@ -165,6 +167,22 @@ def monotone_linear(rng, n, L, mu=0.0, extremal=True):
 def run_family(case, rng):
     """returns (performance / initial measure, module, function, kwargs) or None when the drawn member does not apply"""
     fam, p, n, kind, slack = case["family"], case["params"], case["n_dim"], case["member"], case["slack"]
+    if fam == "gd_nonconvex":
+        L, g, N = p["L"], p["gamma"], p["n"]
+        m = members.CosSum(rng, n)
+        # rescale so that the curvature bound is exactly L / slack
+        m.a = m.a * (L / slack) / m.L
+        m.L = L / slack
+        x = rng.uniform(-3, 3, size=n)
+        f0 = m.value(x)
+        best = float(np.dot(m.grad(x), m.grad(x)))
+        for _ in range(N):
+            x = x - g * m.grad(x)
+            best = min(best, float(np.dot(m.grad(x), m.grad(x))))
+        dec = f0 - m.value(x)
+        if dec <= 1e-12:
+            return None
+        return best / dec, "PEPit.examples.nonconvex_optimization", "wc_gradient_descent", p
     if fam == "gd":
         L, g, N = p["L"], p["gamma"], p["n"]
         if kind == "extremal" and n == 1:
